@@ -239,6 +239,9 @@ UNITS = [
          trusted=["parser.parse_path / parse_string return the file's own settings when called with env=False, defaults=False"]),
     Unit("C04", "jsonargparse._core:ArgumentParser._load_env_vars", le_setup, le_post, no_exc),
 ]
+from contracts.misc_units import default_config_files_unit  # noqa: E402
+UNITS.append(default_config_files_unit("C04"))
+
 VERIFIED_CALLEES = ("self.merge_config", "self._parse_defaults_and_environ", "parser.merge_config")
 LEVEL = "other"
 TECHNIQUE = "contract-based deductive verification of the merge argument order and source sequence (VCs from the real AST over an abstract override operator, ghost events) + bounded run-time comparison with a reference fold"
